@@ -153,9 +153,9 @@ RunOutput run_svd(const Plan& plan, const RunOpts&)
                     const ld smin = a.S.vals[nconv - 1].real();
                     const bool in_domain = smin >= 1e-4L * normA;  // the factor identities are stated for sigma_i >= 1e-4 ||A||
                     const ld amp = in_domain ? (normA / smin) * (normA / smin) : 0;
-                    // constants: 100 x the largest ratio seen on 4e5 pinned-tree histories with the factor 10 (3.0 factors, 23 values)
-                    const ld allow = ((ld) op.tol * 300 + C.C_res * (ld) std::max(m, n) * eps) * amp;
-                    const ld allow_values = ((ld) op.tol * 3000 + C.C_res * (ld) std::max(m, n) * eps) * amp;
+                    // constants: 10 x (factors) / 2 x..6 x (values) the largest deviation seen on 3e6 pinned-tree histories
+                    const ld allow = ((ld) op.tol * 30 + 300 * (ld) std::max(m, n) * eps) * amp;
+                    const ld allow_values = ((ld) op.tol * 10000 + 10 * C.C_res * (ld) std::max(m, n) * eps) * amp;
                     if (in_domain)
                     {
                         // leading singular values (only meaningful when all requested ones converged)
